@@ -102,3 +102,43 @@ func genConcCmp(t *rapid.T) concCmpCase {
 	}
 	return c
 }
+
+// Clock readings: the values an application compares are very often what time.Now() just returned - time.Time values that
+// carry a monotonic clock reading besides the wall clock. A date-time is before an instant exactly when its whole-second
+// timestamp is the smaller one, whatever else the two values carry.
+type clockCase struct {
+	Pairs int  `json:"pairs"`
+	Two   bool `json:"readings_taken_by_two_goroutines,omitempty"`
+}
+
+func checkClock(c clockCase) *rp.Fail {
+	ev.Case("datetime/raw-clock-readings", true, fmt.Sprint(c))
+	for i := 0; i < c.Pairs; i++ {
+		a := time.Now()
+		var b time.Time
+		if c.Two {
+			ch := make(chan time.Time, 1)
+			go func() { ch <- time.Now() }()
+			b = <-ch
+		} else {
+			for k := 0; k < i%7; k++ {
+				_ = time.Now()
+			}
+			b = time.Now()
+		}
+		for _, p := range [][2]time.Time{{a, b}, {b, a}, {a, a}, {a, b.Add(time.Second)}, {a.Add(-time.Second), b}} {
+			if got, want := types.DateTime(p[0]).Before(p[1]), p[0].Unix() < p[1].Unix(); got != want {
+				return rp.Failf("types.DateTime.Before/clock-readings", "DateTime(%v).Before(%v) = %v; the whole-second timestamps are %d and %d (both values are clock readings: they carry a monotonic reading)", p[0], p[1], got, p[0].Unix(), p[1].Unix())
+			}
+		}
+	}
+	return nil
+}
+
+func sweepClock(yield func(clockCase) bool) {
+	for i, c := range []clockCase{{Pairs: 3000}, {Pairs: 1000, Two: true}, {Pairs: 3000}, {Pairs: 1000, Two: true}} {
+		if ev.Mine(i) && !yield(c) {
+			return
+		}
+	}
+}
